@@ -132,6 +132,10 @@ fn validity_str(v: DataLengthValidity) -> &'static str {
 pub fn stream_limits(out: &mut impl Write, seed: u64, budget: usize) {
     let mut rng = Rng::new(seed, 31);
     let mut lens: Vec<u32> = vec![0, 1, 9, 10, 11, 49, 50, 51, 127, 128, 129, 4_224_281_215, 4_224_281_216, 4_224_281_217, u32::MAX];
+    // truncation-shaped lengths: 2^k + d and m * 2^16 + d for small d (a classification that looks at a
+    // narrowed copy of the length only goes wrong there)
+    for k in 8..32u32 { for d in [0u32, 1, 9, 10, 49, 50, 127, 128, 200] { lens.push((1u32 << k).wrapping_add(d)); lens.push((1u32 << k).wrapping_sub(d + 1)); } }
+    for _ in 0..budget / 2 { let m = rng.range(1, 65535) as u32; lens.push((m << 16).wrapping_add(rng.range(0, 260) as u32)); }
     for _ in 0..budget { lens.push(match rng.below(3) { 0 => rng.range(0, 300) as u32, 1 => rng.next() as u32, _ => 4_224_281_216u32.wrapping_add(rng.range(0, 200) as u32).wrapping_sub(100) }); }
     for vi in 0..5 {
         for &len in &lens {
@@ -139,6 +143,11 @@ pub fn stream_limits(out: &mut impl Write, seed: u64, budget: usize) {
             let (mn, mc, mx) = with_variant!(vi, T => (Generator::<T>::MIN, Generator::<T>::MIN_CONSERVATIVE, Generator::<T>::MAX));
             writeln!(out, "lenlimits {} {} => {} {} {} {} {} {} {}", vi, len, validity_str(v), v.is_err() as u8,
                 v.is_err_on(DataLengthProcessingMode::Optimistic) as u8, v.is_err_on(DataLengthProcessingMode::Conservative) as u8, mn, mc, mx).unwrap();
+            // direct oracle (C10): the classification is the one the generator's published constants define
+            let expect = if len > mx { "TooLarge" } else if len < mn { "TooSmall" } else if len < mc { "ValidWhenOptimistic" } else { "Valid" };
+            if validity_str(v) != expect {
+                writeln!(out, "ORACLE C10 validity-differs-from-published-constants lenlimits {} {} => {} expected {}", vi, len, validity_str(v), expect).unwrap();
+            }
         }
     }
 }
